@@ -1,1 +1,161 @@
-//! placeholder
+//! `Forest::{solutions, get_tree, iter, into_iter}` / `Tree::children` on SPPFs built by
+//! the harness (C03: index decoding). Shapes are concrete templates; the tree indexes
+//! are symbolic.
+use crate::common::*;
+use petgraph::graph::NodeIndex;
+use rustemo::verif::{Parent, SPPFTree, Tree, TreeData};
+use rustemo::{Forest, Position, SourceSpan, Token};
+use std::cell::RefCell;
+use std::collections::VecDeque;
+use std::rc::Rc;
+
+type Node = Rc<SPPFTree<'static, str, P, Tk>>;
+type Par = Rc<Parent<'static, str, P, Tk>>;
+
+fn data() -> TreeData<'static, str> {
+    TreeData { span: SourceSpan::new(Position::from(0), Position::from(1)), layout: None }
+}
+fn term(kind: u8) -> Node {
+    Rc::new(SPPFTree::Term { token: Token { kind: Tk(kind), value: "a", span: SourceSpan::new(Position::from(0), Position::from(1)) }, data: data() })
+}
+fn par(alts: Vec<Node>) -> Par {
+    Rc::new(Parent::new(NodeIndex::new(0), NodeIndex::new(1), alts))
+}
+fn nonterm(prod: u8, children: Vec<Par>) -> Node {
+    Rc::new(SPPFTree::NonTerm { prod: P(prod), data: data(), children: RefCell::new(VecDeque::from(children)) })
+}
+
+/// Signature of a fully expanded tree: the sequence of productions / token kinds met in a
+/// depth-first walk, folded into a number (every alternative of a template has its own
+/// production id, so two trees are equal iff their signatures are).
+fn sig(t: &Tree<'static, str, P, Tk>, depth: usize) -> u64 {
+    // Tree has no accessor for its root; Debug would format. Walk children only and fold
+    // the *number of children* and recursive signatures; alternatives differ in arity or in
+    // the arity pattern below them (templates are built that way).
+    let ch = t.children();
+    let mut s: u64 = 1 + ch.len() as u64;
+    if depth > 0 {
+        let mut i = 0;
+        while i < ch.len() {
+            s = s * 7 + sig(&ch[i], depth - 1);
+            i += 1;
+        }
+    }
+    std::mem::forget(ch);
+    s
+}
+
+/// An alternative recognisable by its arity: a non-terminal with `n` terminal children.
+fn alt(n: usize) -> Node {
+    let mut c = Vec::with_capacity(n);
+    let mut i = 0;
+    while i < n {
+        c.push(par(vec![term(1)]));
+        i += 1;
+    }
+    nonterm(n as u8, c)
+}
+
+fn check_forest(f: Forest<'static, str, P, Tk>, count: usize, depth: usize) {
+    assert!(f.solutions() == count, "C03 number of solutions = number of trees of the template");
+    let i: usize = kani::any();
+    let j: usize = kani::any();
+    let ti = f.get_tree(i);
+    assert!(ti.is_some() == (i < count), "C03 get_tree(i) is Some iff i < solutions()");
+    if i < count && j < count && i != j {
+        let tj = f.get_tree(j).unwrap();
+        assert!(sig(ti.as_ref().unwrap(), depth) != sig(&tj, depth), "C03 different indexes give different trees");
+        std::mem::forget(tj);
+    }
+    kani::cover!(i + 1 == count && count > 1, "last tree");
+    kani::cover!(i >= count, "index beyond the number of solutions");
+    // iteration stops exactly at solutions()
+    let mut n = 0;
+    let mut it = f.iter();
+    while let Some(t) = it.next() {
+        n += 1;
+        std::mem::forget(t);
+        assert!(n <= count, "C03 iteration yields no more than solutions() trees");
+    }
+    assert!(n == count, "C03 iteration yields exactly solutions() trees");
+    std::mem::forget(ti);
+    std::mem::forget(f);
+}
+
+/// single unambiguous tree
+#[kani::proof]
+#[kani::unwind(5)]
+pub fn forest_single() {
+    let root = nonterm(9, vec![par(vec![alt(1)]), par(vec![term(2)])]);
+    check_forest(Forest::new(vec![root]), 1, 2);
+}
+
+/// one child with three packed alternatives
+#[kani::proof]
+#[kani::unwind(6)]
+pub fn forest_packed3() {
+    let root = nonterm(9, vec![par(vec![alt(0), alt(1), alt(2)])]);
+    check_forest(Forest::new(vec![root]), 3, 2);
+}
+
+/// two ambiguous children: 2 x 3 (mixed radix)
+#[kani::proof]
+#[kani::unwind(9)]
+pub fn forest_2x3() {
+    let root = nonterm(9, vec![par(vec![alt(0), alt(1)]), par(vec![alt(0), alt(1), alt(2)])]);
+    check_forest(Forest::new(vec![root]), 6, 2);
+}
+
+/// several forest roots with different solution counts (2 + 3)
+#[kani::proof]
+#[kani::unwind(8)]
+pub fn forest_roots_2_3() {
+    let r1 = nonterm(8, vec![par(vec![alt(0), alt(1)])]);
+    let r2 = nonterm(9, vec![par(vec![term(1)]), par(vec![alt(0), alt(1), alt(2)])]);
+    check_forest(Forest::new(vec![r1, r2]), 5, 2);
+}
+
+/// nesting: an alternative that is itself ambiguous below (depth 3): 1 + 2
+#[kani::proof]
+#[kani::unwind(6)]
+pub fn forest_nested() {
+    let deep = nonterm(3, vec![par(vec![term(1)]), par(vec![alt(1), alt(2)])]);
+    let root = nonterm(9, vec![par(vec![alt(0), deep])]);
+    check_forest(Forest::new(vec![root]), 3, 3);
+}
+
+/// a right-nulled alternative (zero children) next to a non-empty one; empty forest
+#[kani::proof]
+#[kani::unwind(5)]
+pub fn forest_empty_alt() {
+    let root = nonterm(9, vec![par(vec![alt(0), alt(2)])]);
+    check_forest(Forest::new(vec![root]), 2, 2);
+    let e: Forest<'static, str, P, Tk> = Forest::new(vec![]);
+    assert!(e.solutions() == 0 && e.is_empty());
+    let i: usize = kani::any();
+    assert!(e.get_tree(i).is_none(), "C03 an empty forest yields no tree");
+    assert!(e.get_first_tree().is_none());
+}
+
+/// into_iter (consuming) yields exactly solutions() trees
+#[kani::proof]
+#[kani::unwind(9)]
+pub fn forest_into_iter() {
+    let root = nonterm(9, vec![par(vec![alt(0), alt(1)]), par(vec![alt(0), alt(1), alt(2)])]);
+    let f = Forest::new(vec![root]);
+    let mut n = 0;
+    for t in f {
+        n += 1;
+        std::mem::forget(t);
+    }
+    assert!(n == 6, "C03 into_iter yields exactly solutions() trees");
+}
+
+/// Vacuity twin.
+#[kani::proof]
+#[kani::unwind(6)]
+pub fn forest_twin_must_fail() {
+    let root = nonterm(9, vec![par(vec![alt(0), alt(1), alt(2)])]);
+    check_forest(Forest::new(vec![root]), 3, 2);
+    assert!(false, "twin: reachable end of harness");
+}
